@@ -48,7 +48,65 @@ func findSplices(bf *boundsFn) []spliceSite {
 		}
 		out = append(out, spliceSite{call: c, lo: s0.High, hi: s1.Low, base: s0.X})
 	})
+	// the same removal spelt copy(X[i:], X[j:]) followed by X = X[:len(X)-(j-i)]
+	eachInstr(bf.fn, func(ins ssa.Instruction) {
+		c, ok := ins.(*ssa.Call)
+		if !ok || builtinName(c.Common()) != "copy" || len(c.Call.Args) != 2 {
+			return
+		}
+		s0, ok0 := stripValue(c.Call.Args[0]).(*ssa.Slice)
+		s1, ok1 := stripValue(c.Call.Args[1]).(*ssa.Slice)
+		if !ok0 || !ok1 || s0.Low == nil || s0.High != nil || s1.Low == nil || s1.High != nil {
+			return
+		}
+		if bf.find(s0.X) != bf.find(s1.X) {
+			return
+		}
+		la, lo := bf.atom(s0.Low)
+		ha, ho := bf.atom(s1.Low)
+		if la != ha || ho-lo < 1 {
+			return
+		}
+		if truncationAfter(bf, c, s0.X, ho-lo) == nil {
+			return
+		}
+		out = append(out, spliceSite{call: c, lo: s0.Low, hi: s1.Low, base: s0.X})
+	})
 	return out
+}
+
+// truncationAfter: later in the block of the copy, the list is resliced to
+// X[:len(X)-k]; returns that slice instruction.
+func truncationAfter(bf *boundsFn, cp *ssa.Call, base ssa.Value, k int64) *ssa.Slice {
+	var found *ssa.Slice
+	after := false
+	for _, ins := range cp.Block().Instrs {
+		if ins == ssa.Instruction(cp) {
+			after = true
+			continue
+		}
+		if !after {
+			continue
+		}
+		sl, ok := ins.(*ssa.Slice)
+		if !ok || sl.High == nil || sl.Low != nil && !isZeroConst(sl.Low) {
+			continue
+		}
+		if bf.find(sl.X) != bf.find(base) {
+			continue
+		}
+		ha, ho := bf.atom(sl.High)
+		la, lo := bf.lenAtom(sl.X)
+		if ha == la && ho == lo-k {
+			found = sl
+		}
+	}
+	return found
+}
+
+func isZeroConst(v ssa.Value) bool {
+	c, ok := constInt(v)
+	return ok && c == 0
 }
 
 // checkSpliceLoops applies R11 to every splice in f; returns the number found.
